@@ -7,4 +7,5 @@ def main : IO UInt32 :=
     match family with
     | "c06" => C06.check params lines
     | "c06loop" => C06.checkLoop params lines
+    | "c06term" => C06.checkTerm params lines
     | _ => { bad := [s!"unknown family {family}"] })
